@@ -907,12 +907,14 @@ class Gen:
 
     def __init__(self, rng, md=True, nkeys=(2, 3), cplx=False, steps=(3, 8), total=False,
                  maxdepth=6, energy=0.0, same_dt=False, p_subst=0.08, p_share=0.3,
-                 p_clone=0.0, leafops=False, jax=True, mdweight=1):
+                 p_clone=0.0, leafops=False, jax=True, mdweight=1,
+                 linstart=0.0, minbin=0):
         self.rng = rng
         self.md, self.cplx, self.total = md, cplx, total
         self.maxdepth, self.energy = maxdepth, energy
         self.pr_subst, self.pr_share = p_subst, p_share
         self.leafops, self.jax, self.mdweight = leafops, jax, int(mdweight)
+        self.linstart, self.minbin = linstart, minbin
         self.nodes, self.info = [], []
         self.inputs, self.virtual, self.env = {}, {}, {}
         self.banned = set()
@@ -1481,6 +1483,8 @@ class Gen:
             self.leaf(k)
         if self.leafops and rng.integers(0, 3) == 0:
             self.make_mdleaf()
+        if self.linstart and rng.random() < self.linstart:
+            self.linear_start()
         n = 0
         while n < self.nsteps:
             r = self.step()
@@ -1496,6 +1500,29 @@ class Gen:
         if self.energy and rng.random() < self.energy:
             root = self.make_energy(root) or root
         return self.finish(root)
+
+    def linear_start(self):
+        """linear combinations directly on the leaves (-> NIFTy SumOperator / ChainOperator,
+        with negated summands)"""
+        rng = self.rng
+        lv = [i for i, nd in enumerate(self.nodes) if nd[0] == "var" and nd[1] in self.inputs]
+        for _ in range(int(rng.integers(1, 3))):
+            a = lv[int(rng.integers(0, len(lv)))]
+            same = [j for j in lv if self.info[j]["t"][1] == self.info[a]["t"][1] and j != a]
+            if rng.integers(0, 3) == 0:
+                c = float(np.round(rng.uniform(0.3, 2.0), 2))
+                a = self.add(["mulc", a, int(rng.integers(0, 10**6)), False], self.info[a]["t"],
+                             [a], mag=10.) if rng.integers(0, 2) else \
+                    self.add(["scale", a, -c], self.info[a]["t"], [a], mag=8.)
+                if a is None:
+                    continue
+            if not same:
+                continue
+            b = same[int(rng.integers(0, len(same)))]
+            k = ["sub", "sub", "add"][int(rng.integers(0, 3))]
+            r = self.add([k, a, b], self.info[a]["t"], [a, b], binary=True, mag=12.)
+            if r is not None and rng.integers(0, 2):
+                lv.append(r)
 
     def join(self):
         """combine not yet used nodes into one root"""
@@ -1583,6 +1610,8 @@ class Gen:
         usedvirt = {nd[2] for nd in nodes if nd[0] == "subst"}
         prog = dict(inputs=inputs, single=not self.md, nodes=nodes,
                     virtual={k: v[0] for k, v in self.virtual.items() if k in usedvirt})
+        if sum(self.info[i]["bin"] for i in order) < self.minbin:
+            return None
         st = dict(n_nodes=len(nodes), nl=sum(self.info[i]["nl"] for i in order),
                   bin=sum(self.info[i]["bin"] for i in order),
                   depth=self.info[root]["depth"],
@@ -1832,6 +1861,16 @@ def nifty_exc_key(e):
         return None
     slf = last.f_locals.get("self")
     cls = type(slf).__name__ if slf is not None else last.f_code.co_filename.split("/")[-1]
+    if slf is None:
+        # a helper function raised: name the innermost *method* on the stack as well
+        tb, meth = e.__traceback__, None
+        while tb is not None:
+            fr = tb.tb_frame
+            if "/nifty/" in fr.f_code.co_filename and fr.f_locals.get("self") is not None:
+                meth = f"{type(fr.f_locals['self']).__name__}.{fr.f_code.co_name}"
+            tb = tb.tb_next
+        if meth:
+            return f"{type(e).__name__}@{meth}>{last.f_code.co_name}"
     key = f"{type(e).__name__}@{cls}.{last.f_code.co_name}"
     mode = last.f_locals.get("mode")
     if isinstance(mode, int):
